@@ -52,6 +52,9 @@ func (g *gen) graph(id string) graph {
 	selPool := g.subset(simpleTop, 2)
 	atomPool := []string{"print", "grid", "w100"}
 	gr := graph{ID: id, Entry: "a"}
+	if g.chance(0.3) {
+		return g.layeredDuplicate(gr, pl)
+	}
 	anon := 0
 	for fi, name := range names {
 		f := graphFile{Name: name}
@@ -99,6 +102,48 @@ func (g *gen) graph(id string) graph {
 		}
 		gr.Files = append(gr.Files, f)
 	}
+	return gr
+}
+
+// a file imported twice with another layer declared in between: the first copy may be dropped
+// by a bundler, the layers it declares may not (layers keep first-declaration order)
+func (g *gen) layeredDuplicate(gr graph, pl *pools) graph {
+	sel := g.pick([]string{".a", "p", ".b", "span"})
+	imp := func(file string, wrap ...PathEl) fileItem {
+		if wrap == nil {
+			wrap = []PathEl{}
+		}
+		return fileItem{K: "import", Path: []PathEl{}, Decls: []Decl{}, Names: [][]string{}, File: file, Wrap: wrap}
+	}
+	rule := func(layer string) fileItem {
+		var path []PathEl
+		if layer != "" {
+			path = append(path, layerEl(layer))
+		}
+		path = append(path, selEl(sel))
+		return ruleFileItem(Item{K: "rule", Path: path, Decls: []Decl{g.decl("color", []string{g.pick(pl.colors)}, 0, 0.2)}})
+	}
+	a := graphFile{Name: "a"}
+	b := graphFile{Name: "b"}
+	c := graphFile{Name: "c"}
+	switch g.rng.Intn(3) {
+	case 0: // the layers are inside the files
+		a.Items = []fileItem{imp("b"), imp("c"), imp("b")}
+		b.Items = []fileItem{rule("x")}
+		c.Items = []fileItem{rule("y"), rule("x")}
+	case 1: // the layers come from the imports
+		a.Items = []fileItem{imp("b", layerEl("x")), imp("c", layerEl("y")), imp("b", layerEl("x"))}
+		b.Items = []fileItem{rule("")}
+		c.Items = []fileItem{rule(""), rule("x")}
+	default: // a statement in the duplicated file, a conditional second copy
+		a.Items = []fileItem{imp("b"), imp("c"), imp("b", condEl("media", Cond{R: "media", Qs: []Query{{Atoms: []AtomRef{{A: "print", Sp: 1}}}}}))}
+		b.Items = []fileItem{ruleFileItem(Item{K: "layer", Names: [][]string{{"x"}, {"y"}}}), rule("x")}
+		c.Items = []fileItem{rule("y"), rule("x")}
+	}
+	if g.chance(0.5) {
+		a.Items = append(a.Items, rule(g.pick([]string{"", "x", "y"})))
+	}
+	gr.Files = []graphFile{a, b, c}
 	return gr
 }
 
